@@ -42,9 +42,9 @@ class P(Profile):
     progs_max = 4
     sequences = (0, 1, 1, 2, 3)
     wait_exit = 0.2
-    startsecs = (0, 1, 6, 12)
+    startsecs = (0, 1, 6, 12, 12)
     startretries = (0, 1)
-    fault_ops = ('crash', 'restart', 'crash_target', 'crash_target')
+    fault_ops = ('crash', 'restart', 'crash_target', 'crash_target', 'crash_master')
     proc_ops = ('exit', 'swallow', 'swallow')
     user_ops = ('rpc_app', 'rpc_app', 'rpc_app')
     op_rate = 0.3
@@ -270,11 +270,19 @@ class StartOrderMonitor(Monitor):
                                       f't={job.failed[3]} ({job.failed[4]}) in the same job'))
         # (c) application level
         names = inst.supvisors.starter.get_application_job_names()
+        starter = inst.supvisors.starter
+        live_jobs = {id(j) for j in list(starter.current_jobs.values())}
+        for planned in starter.planned_jobs.values():
+            live_jobs.update(id(j) for j in planned.values())
         for other in self.ref.apps.values():
             if other['name'] == app['name'] or not 0 < other['start_sequence'] < app['start_sequence']:
                 continue
             for q in other['programs']:
                 rec = pend.get(q['namespec'])
+                # NOTE: only requests of a job that the emitter still follows: after an abort (ELECTION, ending) the
+                #       applications are planned again from scratch and a later trigger is not bound by the dropped job
+                if rec is not None and rec.get('job') is not None and id(rec['job'].ref) not in live_jobs:
+                    continue
                 if rec is not None and q['start_sequence'] > 0 and not self._resolved(inst, q['namespec'], rec):
                     self.findings.append(('start-order:application', f'{where} (application start_sequence '
                                           f'{app["start_sequence"]}) while {q["namespec"]} of application {other["name"]} '
@@ -293,6 +301,7 @@ class StartOrderMonitor(Monitor):
         rec = {'time': w.now, 'target': (target.idx, target.incarnation) if target is not None else (-1, -1),
                'arrived': '', 'ran': False, 'resolved': '' if target is not None else 'unknown target'}
         pend[namespec] = rec
+        rec['job'] = job
         if job is not None:
             job.requested[namespec] = rec
         self.requests += 1
